@@ -31,6 +31,7 @@ RULE = (
     'cell face; distinct = SHA-1 of the original representation.'
 )
 RULE += ' Added in rounds 5-10: automatic radius under all transformations; coordinates 1e-12..3e-9 below voxel edges with a steered translation; dyadic samples exactly on voxel edges; costs of dijkstra / bellman-ford / dijkstra-exp paths compared between representations.'
+RULE += ' Round 13: centre-of-mass diffusivity (of the diffusing atoms and of all atoms) and the Haven ratio are compared across the transformations as well.'
 ASSUMPTIONS = [
     'comparisons between two runs of the real code (metamorphic); floats at rtol 1e-9, integer arrays exactly',
     'RDF comparison is skipped (and counted) when a pair distance lies within 1e-7 A of a bin edge in the original representation',
@@ -155,6 +156,13 @@ def analyse(rep: Rep, params, ctx, traj=None):
     mm = li.metrics()
     out['tracer_D'] = float(mm.tracer_diffusivity(dimensions=3))
     out['vib'] = float(mm.vibration_amplitude())
+    # centre-of-mass motion of the diffusing atoms and of the whole cell content (mass-weighted; several species)
+    out['com_D'] = float(mm.tracer_diffusivity_center_of_mass(dimensions=3))
+    out['com_D_all'] = float(traj.metrics().tracer_diffusivity_center_of_mass(dimensions=3))
+    try:
+        out['haven'] = float(mm.haven_ratio(dimensions=3))
+    except ZeroDivisionError:
+        out['haven'] = None
     vol = li.to_volume(resolution=params['grid_res'])
     out['volume'] = np.asarray(vol.data).copy()
     F = vol.get_free_energy(temperature=rep.temp)
@@ -254,6 +262,10 @@ def compare(base, other, name, amap, smap, shift, ctx, what, wit, skip_rdf, site
             ctx.decided()
     ctx.check(feq(other['tracer_D'], base['tracer_D']), f'{w}: tracer diffusivity {other["tracer_D"]!r} vs {base["tracer_D"]!r}', wit)
     ctx.check(feq(other['vib'], base['vib'], 1e-8), f'{w}: vibration amplitude {other["vib"]!r} vs {base["vib"]!r}', wit)
+    for k_ in ('com_D', 'com_D_all'):
+        ctx.check(feq(other[k_], base[k_], 1e-7) or abs(other[k_] - base[k_]) <= 1e-9 * abs(base['tracer_D']), f'{w}: centre-of-mass diffusivity ({k_}) {other[k_]!r} vs {base[k_]!r}', wit)
+    if base['haven'] is not None and other['haven'] is not None and base['com_D'] > 1e-6 * base['tracer_D']:
+        ctx.check(feq(other['haven'], base['haven'], 1e-6), f'{w}: Haven ratio {other["haven"]!r} vs {base["haven"]!r}', wit)
     if skip_vol:
         return True
     if other['volume'].shape != base['volume'].shape:
